@@ -19,6 +19,7 @@ import (
 	"encoding/json"
 	"fmt"
 	"io"
+	"math/big"
 	"net"
 	nethttp "net/http"
 	"net/http/httptest"
@@ -587,29 +588,54 @@ func acceptable(s tokenSpec, signers []*signer, genuine bool) bool {
 	if len(jti) != 36 {
 		return false
 	}
-	num := func(k string) (int64, bool) {
-		switch v := c[k].(type) {
-		case int64:
-			return v, true
-		case float64: // NumericDate may carry a fraction (RFC 7519)
-			return int64(v), true
-		}
-		return 0, false
-	}
-	iat, ok1 := num("iat")
-	nbf, ok2 := num("nbf")
-	exp, ok3 := num("exp")
+	// The time claims are judged on the numbers AS SENT, with exact (arbitrary precision) arithmetic: a NumericDate is
+	// any JSON number (RFC 7519: may carry a fraction, may be written with an exponent, is not bounded). The documented
+	// rules (docs api-authentication, tokenV2.bestPracticesCheck): exp in the future, nbf and iat not in the future,
+	// exp at most 24.5 h (88200 s) after nbf and after iat, iat not after nbf. Two seconds of slack (clock reading,
+	// truncation of fractions to whole seconds) only ever make the predicate MORE permissive.
+	iat, ok1 := claimNumber(c["iat"])
+	nbf, ok2 := claimNumber(c["nbf"])
+	exp, ok3 := claimNumber(c["exp"])
 	if !ok1 || !ok2 || !ok3 {
 		return false
 	}
-	n := time.Now().Unix()
-	if exp <= n-2 || nbf > n+2 || iat > n+2 { // the two seconds of slack only ever make the predicate MORE permissive
+	rat := func(n int64) *big.Rat { return new(big.Rat).SetInt64(n) }
+	n := rat(time.Now().Unix())
+	slack := rat(2)
+	sub := func(a, b *big.Rat) *big.Rat { return new(big.Rat).Sub(a, b) }
+	add := func(a, b *big.Rat) *big.Rat { return new(big.Rat).Add(a, b) }
+	if exp.Cmp(sub(n, slack)) <= 0 || nbf.Cmp(add(n, slack)) > 0 || iat.Cmp(add(n, slack)) > 0 {
 		return false
 	}
-	if exp-nbf > 1470*60 || exp-iat > 1470*60 || iat > nbf {
+	if exp.Sign() <= 0 {
+		return false
+	}
+	// distances between claims: exact when all three are whole seconds (as the implementation compares whole-second
+	// times); one second of slack when a fraction is involved (fractions may be truncated before comparing)
+	dslack := rat(0)
+	if !exp.IsInt() || !nbf.IsInt() || !iat.IsInt() {
+		dslack = rat(1)
+	}
+	maxLife := add(rat(1470*60), dslack)
+	if sub(exp, nbf).Cmp(maxLife) > 0 || sub(exp, iat).Cmp(maxLife) > 0 || iat.Cmp(add(nbf, dslack)) > 0 {
 		return false
 	}
 	return true
+}
+
+// claimNumber returns the exact value of a time claim as it is sent: the JSON number literal the claim is serialised to.
+func claimNumber(v any) (*big.Rat, bool) {
+	switch v.(type) {
+	case int64, int, float64, json.Number:
+	default:
+		return nil, false
+	}
+	lit, err := json.Marshal(v)
+	if err != nil {
+		return nil, false
+	}
+	x, ok := new(big.Rat).SetString(string(lit))
+	return x, ok
 }
 
 func mustRSA(bits int) *rsa.PrivateKey {
@@ -656,6 +682,21 @@ func makeSigners(t *testing.T) []*signer {
 	}
 }
 
+// writeKeys writes the authorized_keys file: the authorised signers and the listed-but-too-weak ones.
+func writeKeys(t *testing.T, signers []*signer) string {
+	keys := ""
+	for _, s := range signers {
+		if s.authorized || s.listed {
+			keys += strings.TrimSpace(string(ssh.MarshalAuthorizedKey(s.pub))) + " " + s.comment + "\n"
+		}
+	}
+	keysPath := filepath.Join(t.TempDir(), "authorized_keys")
+	if err := os.WriteFile(keysPath, []byte(keys), 0o600); err != nil {
+		t.Fatal(err)
+	}
+	return keysPath
+}
+
 func tokenSpecs(signers []*signer, pairs bool) []tokenSpec {
 	var out []tokenSpec
 	defects := claimDefects()
@@ -698,10 +739,113 @@ func tokenSpecs(signers []*signer, pairs bool) []tokenSpec {
 				}
 			}
 		}
+		// numeric extremes of every time claim and of their pairwise distances (on one authorised key; thorough: two)
+		if si == 0 || (pairs && si == 1) {
+			for _, d := range timeExtremes() {
+				c := baseClaims(sg.comment)
+				d.apply(c)
+				out = append(out, tokenSpec{Desc: sg.name + " " + d.name, Signer: si, Alg: good, Claims: c})
+			}
+		}
 	}
 	// the unauthorised signer claiming an authorised user's name
 	c := baseClaims("alice-ecdsa256")
 	out = append(out, tokenSpec{Desc: "mallory as alice", Signer: 4, Alg: "ES256", Claims: c})
+	return out
+}
+
+// timeExtremes is the family "numeric extremes of the time claims": every claim (exp, nbf, iat), the pair nbf+iat and
+// the whole validity window is moved away from now by every offset of a list of machine-arithmetic boundaries (powers
+// of two, the int64-nanosecond horizon floor(2^63/1e9) s = 292.27 y and its multiples - where time.Duration and
+// multiplications by 1e9 wrap around -, 2^53, centuries), and set to absolute extremes (zero, negative, year 1, year
+// 9999, int64 limits, beyond int64, exponent and fractional literals). Values are sent as exact JSON number literals.
+// Whether a token is acceptable is NOT stated here: the reference predicate judges the claims as sent.
+func timeExtremes() []claimDefect {
+	var out []claimDefect
+	lit := func(x *big.Int) any {
+		if x.IsInt64() {
+			return x.Int64()
+		}
+		return json.Number(x.String())
+	}
+	nowB := big.NewInt(now.Unix())
+	at := func(off *big.Int) any { return lit(new(big.Int).Add(nowB, off)) }
+	neg := func(x *big.Int) *big.Int { return new(big.Int).Neg(x) }
+	plus := func(x *big.Int, d int64) *big.Int { return new(big.Int).Add(x, big.NewInt(d)) }
+	pow2 := func(n uint) *big.Int { return new(big.Int).Lsh(big.NewInt(1), n) }
+
+	type off struct {
+		name string
+		v    *big.Int
+	}
+	offs := []off{
+		{"2^31-1", plus(pow2(31), -1)}, {"2^31", pow2(31)}, {"2^32-1", plus(pow2(32), -1)}, {"2^32", pow2(32)},
+		{"2^53", pow2(53)}, {"2^53+1", plus(pow2(53), 1)}, {"1000y", big.NewInt(31556952000)}, {"2^62", pow2(62)},
+		{"2^63-1", plus(pow2(63), -1)}, {"2^63", pow2(63)}, {"2^64", pow2(64)},
+	}
+	// multiples of the int64 nanosecond horizon: m * 2^63 / 1e9 seconds (m even: a full wrap of 2^64 ns)
+	for m := int64(1); m <= 6; m++ {
+		q := new(big.Int).Div(new(big.Int).Mul(big.NewInt(m), pow2(63)), big.NewInt(1_000_000_000))
+		for _, d := range []int64{-1, 0, 1, 2, 3600, 86400 * 365} {
+			offs = append(offs, off{fmt.Sprintf("%d*floor(2^63/1e9)%+d", m, d), plus(q, d)})
+		}
+	}
+	add := func(name string, f func(m map[string]any)) { out = append(out, claimDefect{name: "time-extreme/" + name, apply: f}) }
+	for _, o := range offs {
+		o := o
+		add("exp=now+"+o.name, func(m map[string]any) { m["exp"] = at(o.v) })
+		add("exp=nbf+"+o.name, func(m map[string]any) { m["exp"] = lit(new(big.Int).Add(big.NewInt(m["nbf"].(int64)), o.v)) })
+		add("nbf=now-"+o.name, func(m map[string]any) { m["nbf"] = at(neg(o.v)) })
+		add("iat=now-"+o.name, func(m map[string]any) { m["iat"] = at(neg(o.v)) })
+		add("nbf,iat=now-"+o.name, func(m map[string]any) { m["nbf"], m["iat"] = at(neg(o.v)), at(neg(o.v)) })
+		add("nbf=now+"+o.name, func(m map[string]any) { m["nbf"] = at(o.v) })
+		add("iat=now+"+o.name, func(m map[string]any) { m["iat"] = at(o.v) })
+		add("window=now+"+o.name, func(m map[string]any) {
+			m["iat"], m["nbf"], m["exp"] = at(plus(o.v, -60)), at(plus(o.v, -60)), at(plus(o.v, 3600))
+		})
+		add("window=now-"+o.name, func(m map[string]any) {
+			m["iat"], m["nbf"], m["exp"] = at(plus(neg(o.v), -60)), at(plus(neg(o.v), -60)), at(plus(neg(o.v), 3600))
+		})
+		// the lower ends far in the past AND the upper end far in the future: the distance is twice the offset
+		add("nbf,iat=now-"+o.name+",exp=now+"+o.name, func(m map[string]any) {
+			m["nbf"], m["iat"], m["exp"] = at(neg(o.v)), at(neg(o.v)), at(o.v)
+		})
+	}
+	// absolute values
+	type abs struct {
+		name string
+		v    any
+	}
+	absolutes := []abs{
+		{"0", int64(0)}, {"1", int64(1)}, {"-1", int64(-1)}, {"-2^31", int64(-1 << 31)}, {"2^31-1", int64(1<<31 - 1)}, {"2^31", int64(1 << 31)},
+		{"2^32", int64(1 << 32)}, {"9999-12-31T23:59:59Z", int64(253402300799)}, {"10000-01-01", int64(253402300800)},
+		{"0001-01-01(zero time.Time)", int64(-62135596800)}, {"0001-01-01-1s", int64(-62135596801)}, {"0001-01-01+1s", int64(-62135596799)},
+		{"-2^62", int64(-1 << 62)}, {"-2^63", json.Number("-9223372036854775808")}, {"2^63-1", int64(1<<63 - 1)},
+		{"2^63-62135596800(time.Time wrap)", lit(new(big.Int).Sub(pow2(63), big.NewInt(62135596800)))},
+		{"2^63-62135596801", lit(new(big.Int).Sub(pow2(63), big.NewInt(62135596801)))},
+		{"2^63", lit(pow2(63))}, {"2^64", lit(pow2(64))}, {"2^64+now+3600", lit(plus(new(big.Int).Add(pow2(64), nowB), 3600))},
+		{"2^32+now+3600", lit(plus(new(big.Int).Add(pow2(32), nowB), 3600))},
+		{"1e11", json.Number("1e11")}, {"1e18", json.Number("1e18")}, {"1e19", json.Number("1e19")}, {"1e30", json.Number("1e30")},
+		{"1e308", json.Number("1e308")}, {"1e400", json.Number("1e400")}, {"-1e18", json.Number("-1e18")}, {"-1e30", json.Number("-1e30")},
+		{"1e-9", json.Number("1e-9")}, {"0.5", json.Number("0.5")}, {"-0", json.Number("-0")}, {"-0.0", json.Number("-0.0")},
+		{"9223372036854775807.5", json.Number("9223372036854775807.5")}, {"9.223372036854775807e18", json.Number("9.223372036854775807e18")},
+		{"now+3600-as-float-literal", json.Number(fmt.Sprintf("%d.0", now.Unix()+3600))},
+		{"now+3600-as-exponent-literal", json.Number(fmt.Sprintf("%d.%09de9", (now.Unix()+3600)/1_000_000_000, (now.Unix()+3600)%1_000_000_000))},
+		{"now+10y-as-exponent-literal", json.Number(fmt.Sprintf("%d.%09de9", (now.Unix()+315360000)/1_000_000_000, (now.Unix()+315360000)%1_000_000_000))},
+		{"now+3600.999999999", json.Number(fmt.Sprintf("%d.999999999", now.Unix()+3600))},
+		{"now+88100.5(inside)", json.Number(fmt.Sprintf("%d.5", now.Unix()+88100))},
+		{"now+88180.5(beyond)", json.Number(fmt.Sprintf("%d.5", now.Unix()+88180))},
+		{"now-60.5", json.Number(fmt.Sprintf("%d.5", now.Unix()-60))}, {"now-3600-as-float-literal", json.Number(fmt.Sprintf("%d.0", now.Unix()-3600))},
+		{"now+1800.5", json.Number(fmt.Sprintf("%d.5", now.Unix()+1800))},
+	}
+	for _, a := range absolutes {
+		a := a
+		add("exp="+a.name, func(m map[string]any) { m["exp"] = a.v })
+		add("nbf="+a.name, func(m map[string]any) { m["nbf"] = a.v })
+		add("iat="+a.name, func(m map[string]any) { m["iat"] = a.v })
+		add("nbf,iat="+a.name, func(m map[string]any) { m["nbf"], m["iat"] = a.v, a.v })
+		add("exp,nbf,iat="+a.name, func(m map[string]any) { m["exp"], m["nbf"], m["iat"] = a.v, a.v, a.v })
+	}
 	return out
 }
 
@@ -716,10 +860,16 @@ func normClaims(m map[string]any) map[string]any {
 	return m
 }
 
-// normClaimsJSON turns the float64 numbers of a JSON-decoded claim set back into int64 unix times.
+// normClaimsJSON restores a claim set decoded from a replay file (numbers decoded as json.Number, so that the literal
+// that was sent is sent again): integer literals within int64 become int64, everything else stays the literal.
 func normClaimsJSON(m map[string]any) map[string]any {
-	for _, k := range []string{"iat", "nbf", "exp"} {
-		if f, ok := m[k].(float64); ok {
+	for k, v := range m {
+		if n, ok := v.(json.Number); ok {
+			if i, err := n.Int64(); err == nil {
+				m[k] = i
+			}
+		}
+		if f, ok := v.(float64); ok && f == float64(int64(f)) {
 			m[k] = int64(f)
 		}
 	}
@@ -777,17 +927,7 @@ func TestVerifC04(t *testing.T) {
 	r.Assume("net/http server and echo router are exercised, not modelled; time-dependent claims are placed >= 30 s away from their bounds")
 
 	signers := makeSigners(t)
-	dir := t.TempDir()
-	keys := ""
-	for _, s := range signers {
-		if s.authorized || s.listed {
-			keys += strings.TrimSpace(string(ssh.MarshalAuthorizedKey(s.pub))) + " " + s.comment + "\n"
-		}
-	}
-	keysPath := filepath.Join(dir, "authorized_keys")
-	if err := os.WriteFile(keysPath, []byte(keys), 0o600); err != nil {
-		t.Fatal(err)
-	}
+	keysPath := writeKeys(t, signers)
 	auth := startEngine(t, "auth", true, false, keysPath)
 	twin := startEngine(t, "twin", false, false, keysPath)
 	same := startEngine(t, "same", true, true, keysPath)
@@ -795,14 +935,27 @@ func TestVerifC04(t *testing.T) {
 
 	// --replay: send exactly the recorded request to the engine with authentication and report what ran
 	var rc struct {
-		Raw    string     `json:"raw"`
-		Spec   *tokenSpec `json:"spec"`
-		Header []string   `json:"header"`
-		Target *target    `json:"target"`
+		Raw     string          `json:"raw"`
+		RawSpec json.RawMessage `json:"spec"`
+		Spec    *tokenSpec      `json:"-"`
+		Header  []string        `json:"header"`
+		Target  *target         `json:"target"`
 	}
-	if r.ReplayCase(&rc) {
+	replaying := r.ReplayCase(&rc)
+	if !replaying && os.Getenv("VERIF_REPLAY") != "" {
+		return // a replay of another part's case
+	}
+	if replaying {
 		raw := strings.ReplaceAll(rc.Raw, "ADDR", auth.internalAddr)
 		want := false
+		if len(rc.RawSpec) > 0 && string(rc.RawSpec) != "null" {
+			dec := json.NewDecoder(strings.NewReader(string(rc.RawSpec)))
+			dec.UseNumber()
+			rc.Spec = &tokenSpec{}
+			if err := dec.Decode(rc.Spec); err != nil {
+				t.Fatalf("replay spec: %v", err)
+			}
+		}
 		if rc.Spec != nil {
 			rc.Spec.Claims = normClaimsJSON(rc.Spec.Claims)
 			tok, genuine := rc.Spec.build2(t, signers)
@@ -874,6 +1027,27 @@ func TestVerifC04(t *testing.T) {
 			}
 			_ = e.Shutdown()
 		}
+	}
+
+	depth := 1
+	if r.Thorough() {
+		depth = 2
+	}
+	r.Bound("path_rewrite_depth", depth)
+
+	// vacuity guards
+	good := tokenSpec{Signer: 0, Alg: "ES256", Claims: normClaims(baseClaims(signers[0].comment))}
+	goodTok, gen := good.build2(t, signers)
+	if !acceptable(good, signers, gen) {
+		t.Fatal("harness: reference predicate refuses the valid token")
+	}
+	canon := target{Method: "GET", Target: "/internal/probe", Version: "HTTP/1.1", Host: auth.internalAddr}
+	takeHits()
+	if code := send(auth.internalAddr, canon.raw([]string{"Bearer " + goodTok})); code != 200 || len(takeHits()) != 1 {
+		t.Fatalf("harness: valid token on canonical path not served (status %d)", code)
+	}
+	if code := send(auth.internalAddr, canon.raw(nil)); code != 401 || len(takeHits()) != 0 {
+		t.Fatalf("harness: canonical path without token: status %d", code)
 	}
 
 	// ---- interleavings of concurrent requests on the ONE authentication middleware object the engine installs on all
@@ -974,27 +1148,6 @@ func TestVerifC04(t *testing.T) {
 				}
 			}
 		}
-	}
-
-	depth := 1
-	if r.Thorough() {
-		depth = 2
-	}
-	r.Bound("path_rewrite_depth", depth)
-
-	// vacuity guards
-	good := tokenSpec{Signer: 0, Alg: "ES256", Claims: normClaims(baseClaims(signers[0].comment))}
-	goodTok, gen := good.build2(t, signers)
-	if !acceptable(good, signers, gen) {
-		t.Fatal("harness: reference predicate refuses the valid token")
-	}
-	canon := target{Method: "GET", Target: "/internal/probe", Version: "HTTP/1.1", Host: auth.internalAddr}
-	takeHits()
-	if code := send(auth.internalAddr, canon.raw([]string{"Bearer " + goodTok})); code != 200 || len(takeHits()) != 1 {
-		t.Fatalf("harness: valid token on canonical path not served (status %d)", code)
-	}
-	if code := send(auth.internalAddr, canon.raw(nil)); code != 401 || len(takeHits()) != 0 {
-		t.Fatalf("harness: canonical path without token: status %d", code)
 	}
 
 	// ---- part 1: request-target grammar without / with an unacceptable token
